@@ -56,6 +56,53 @@ def _new_logged(cls, *a, **kw):
     return object.__new__(cls)
 
 
+FALSY = {'d0': {}, 'i0': 0, 't0': (), 's0': '', 'b0': False}
+
+
+def _fs_name(st):
+    """Which of the falsy states a __setstate__ received."""
+    if isinstance(st, dict):
+        return 'd0' if not st else 'dict'
+    for k, v in FALSY.items():
+        if k != 'd0' and type(st) is type(v) and st == v:
+            return k
+    return 'other:' + repr(st)[:30]
+
+
+def _make_falsy_opt(name, marker, fs):
+    """Opt-in class whose __getstate__ returns a falsy state that is not None; the attributes travel through
+    __getnewargs__.  Standard unpickling calls __setstate__ with that state."""
+    rp = _rp()
+
+    def __new__(cls, val=None, w=None):
+        _event(('new', 'opt'))
+        o = object.__new__(cls)
+        if val is not None:
+            o.val, o.w = val, w
+        return o
+
+    def __getnewargs__(self):
+        return (self.val, self.w)
+
+    def __getstate__(self, remote=False):
+        _event(('gs', self.__dict__.get('val'), 'T' if remote is True else ('F' if remote is False else repr(remote))))
+        return type(FALSY[fs])(FALSY[fs]) if fs == 'd0' else FALSY[fs]
+
+    def __setstate__(self, st):
+        _event(('ss', self.__dict__.get('val')))
+        if getattr(_CTL, 'raise_at', None) == self.__dict__.get('val'):
+            raise Injected('injected failure in __setstate__ of %r' % (self.__dict__.get('val'),))
+        if isinstance(st, dict):
+            self.__dict__.update(st)
+        self.__dict__['got'] = _fs_name(st)
+        self.__dict__['sset'] = 'T'
+
+    ns = {'__new__': __new__, '__getnewargs__': __getnewargs__, '__getstate__': __getstate__, '__setstate__': __setstate__,
+          '_kind': 'opt'}
+    bases = (rp.SupportRemoteGetState,) if marker else (object,)
+    return _bind(type(name, bases, ns))
+
+
 def _make_opt(name, marker, ss, ds):
     rp = _rp()
 
@@ -79,17 +126,18 @@ def _make_opt(name, marker, ss, ds):
     return _bind(type(name, bases, ns))
 
 
-def opt_class(marker, ss, ds, seen):
+def opt_class(marker, ss, ds, seen, fs='no'):
     """One class per feature combination.  `seen` classes have been dumped remotely before (so they sit
     in supported_classes); an un-`seen` duck-typed class is never dumped remotely through this handle."""
-    key = (marker, ss, ds, bool(seen or marker))
+    key = (marker, ss, ds, bool(seen or marker), fs)
     c = _OPT_CACHE.get(key)
     if c is None:
-        name = 'Opt_%s%s%s_%s' % ('M' if marker else 'D', 'S' if ss else 's', 'D' if ds else 'd', 'seen' if key[3] else 'fresh')
-        c = _make_opt(name, marker, ss, ds)
+        name = 'Opt_%s%s%s_%s%s' % ('M' if marker else 'D', 'S' if ss else 's', 'D' if ds else 'd', 'seen' if key[3] else 'fresh',
+                                    '' if fs == 'no' else '_' + fs)
+        c = _make_opt(name, marker, ss, ds) if fs == 'no' else _make_falsy_opt(name, marker, fs)
         if key[3] and not marker:
             x = object.__new__(c)
-            x.val = 'v0'
+            x.val, x.w = 'v0', 'w0'
             _rp().dumps(x)              # "pickled remotely earlier in this process"
         _OPT_CACHE[key] = c
     return c
@@ -163,7 +211,7 @@ def build_graph(scn):
     objs, kinds = [None] * (n + 1), [None] * (n + 1)
     for i, nd in enumerate(g, 1):
         if nd['kind'] == 'opt':
-            cls = opt_class(scn['marker'], nd['ss'], nd['ds'], seen)
+            cls = opt_class(scn['marker'], nd['ss'], nd['ds'], seen, nd.get('fs', 'no'))
             o = object.__new__(cls)
             o.val, o.w = 'v%d' % i, 'w%d' % i
             objs[i], kinds[i] = o, cls
@@ -552,7 +600,7 @@ def run_graph(scn, nest_at=None):
                        for i in range(n)]
         obs['fresh'].append(r)
     # the oracle named by C13: pickle itself
-    L0 = loads[0]
+    L0 = loads[-1]                       # the last call of the sequence (earlier ones may have failed)
     if not L0['patch'] and L0['fail'] == 'none':
         try:
             t = pickle.loads(pickle.dumps(top, protocol=proto))
@@ -560,7 +608,7 @@ def run_graph(scn, nest_at=None):
             std = ('ok',) + std
         except BaseException as e:  # noqa
             std = ('raised',)
-        mine = obs['loads'][0]
+        mine = obs['loads'][-1]
         if mine['outcome'] == 'ok':
             obs['equal_to_pickle'] = 'T' if std == ('ok', mine['top'], mine['nodes']) else 'F'
         else:
@@ -991,6 +1039,14 @@ def run_leaf(scn):
     proto = scn.get('proto', 4)
     g = wrap_value(_MENU[scn['item']], scn['wrap'])
     obs = {'outcome': 'ok', 'equal_to_pickle': 'na', 'real_kind': menu_kind(_MENU[scn['item']]())}
+    if scn.get('after', 'none') == 'fail':        # an earlier remote_pickle.loads on this thread raised (truncated stream)
+        try:
+            rp.loads(rp.dumps([1, 'two', (3,)], protocol=proto)[:-1])
+            raise MachineryError('the truncated stream was loaded')
+        except MachineryError:
+            raise
+        except BaseException:  # noqa
+            pass
     try:
         mine = ('ok', canon(rp.loads(rp.dumps(g, protocol=proto, remote=scn['remote']))))
     except BaseException as e:  # noqa
@@ -1005,12 +1061,28 @@ def run_leaf(scn):
     return obs
 
 
+def normalise(scn):
+    """Fill in fields added to the scenario records later (replay files written by earlier versions)."""
+    if scn['t'] == 'graph':
+        for nd in scn['g']:
+            nd.setdefault('fs', 'no')
+    elif scn['t'] == 'leaf':
+        scn.setdefault('after', 'none')
+    return scn
+
+
 def run_scn(scn, nest_at=None):
-    t = scn['t']
+    t = normalise(scn)['t']
     if t == 'graph':
         return run_graph(scn, nest_at)
-    if t == 'cls':
-        return run_cls(scn)
-    if t == 'leaf':
-        return run_leaf(scn)
-    raise MachineryError('unknown scenario family %r' % (t,))
+    if t not in ('cls', 'leaf'):
+        raise MachineryError('unknown scenario family %r' % (t,))
+    # on a thread of its own: what an earlier scenario left in a thread-local must not leak into this one
+    r = Runner()
+    try:
+        kind, res = r.call(lambda: run_cls(scn) if t == 'cls' else run_leaf(scn))
+    finally:
+        r.stop()
+    if kind == 'exc':
+        raise res if isinstance(res, MachineryError) else MachineryError('harness exception: %r' % (res,))
+    return res
